@@ -97,6 +97,82 @@ Definition e2ecap_run (c : config) (text : str) : option table :=
   e2ecap_core c (header_of text) (parse_lines text).
 
 (* ---------------------------------------------------------------------------------------------------------- *)
+(* the RELATIONAL version: the per-batch selections are an INPUT (what an implementation actually evaluated), judged by
+   C07's checker instead of being computed by Sampler.step.  Property C07 leaves the tie-breaking among equally often
+   evaluated candidates free; every admissible selection history determines a table and a table of counts. *)
+
+Definition cap_all_rows_sel (c : config) (header : list str) (ps : list (option (list str)))
+           (sels : list (list Combos.pair)) : list Aggregate.row :=
+  let bs := e2e_batches c header ps in
+  let D := common_den bs in
+  flat_map (fun be => map (to_agg header) (batch_triplets_sel c header D (batch_rows ps (fst be)) (snd be)))
+           (combine bs sels).
+
+(* the task when batch k evaluates the pairs [nth k sels] *)
+Definition e2ecap_core_pairs (c : config) (header : list str) (ps : list (option (list str)))
+           (sels : list (list Combos.pair)) : option table :=
+  if negb (cap_config_ok c header) then None
+  else if crashes c ps then None
+  else
+    let bs := e2e_batches c header ps in
+    match bs with
+    | [] => None
+    | _ => Some (map (emit header (common_den bs)) (Aggregate.final_table (cap_all_rows_sel c header ps sels)))
+    end.
+
+(* selections given as candidate ids (positions in the candidate list) *)
+Definition sel_pairs (c : config) (header : list str) (isels : list (list Sampler.key)) : list (list Combos.pair) :=
+  map (map (of_id (cap_cands c header))) isels.
+
+Definition e2ecap_core_sel (c : config) (header : list str) (ps : list (option (list str)))
+           (isels : list (list Sampler.key)) : option table :=
+  e2ecap_core_pairs c header ps (sel_pairs c header isels).
+
+(* the history of sampler calls of the run: the same (candidate ids, cap) for every processed batch *)
+Definition cap_ops (c : config) (header : list str) (nb : nat) : list Sampler.op :=
+  map (fun cp : Z => (cap_ids (cap_cands c header), cp)) (repeat (g_cap c) nb).
+
+(* admissibility: one selection per processed batch, and every step is valid for C07's relation against the counts the
+   selections themselves imply (Sampler.derived_obs) *)
+Definition sels_ok (c : config) (header : list str) (ps : list (option (list str))) (isels : list (list Sampler.key)) : bool :=
+  Nat.eqb (length isels) (nbatches c header ps)
+  && Sampler.valid_runb [] (cap_ops c header (nbatches c header ps)) (Sampler.derived_obs [] isels).
+
+(* per-batch verdicts (to name the failing batch) *)
+Definition sels_steps (c : config) (header : list str) (ps : list (option (list str))) (isels : list (list Sampler.key)) : list bool :=
+  Sampler.steps_ok [] (cap_ops c header (nbatches c header ps)) (Sampler.derived_obs [] isels).
+
+(* the counter the selections imply: every candidate with its number of selections (never selected: 0) *)
+Definition cap_counter_sel (c : config) (header : list str) (isels : list (list Sampler.key)) : Sampler.al :=
+  map (fun k => (k, Sampler.sel_count isels k)) (cap_ids (cap_cands c header)).
+
+Definition cap_counts_sel (c : config) (header : list str) (isels : list (list Sampler.key)) : list (Combos.pair * nat) :=
+  map (fun kc => (of_id (cap_cands c header) (fst kc), snd kc)) (cap_counter_sel c header isels).
+
+(* harness glue: an evaluated pair of names -> candidate id, either orientation; not a candidate -> an id outside the list
+   (which the checker rejects) *)
+Definition id_of_pair (cands : list Combos.pair) (p : Combos.pair) : Sampler.key :=
+  if Combos.listedb p cands then Combos.pidx cands p
+  else if Combos.listedb (snd p, fst p) cands then Combos.pidx cands (snd p, fst p)
+  else length cands.
+
+Fixpoint keys_eqb (l1 l2 : list Sampler.key) : bool :=
+  match l1, l2 with
+  | [], [] => true
+  | x :: r1, y :: r2 => Nat.eqb x y && keys_eqb r1 r2
+  | _, _ => false
+  end.
+Fixpoint ins_key (k : Sampler.key) (l : list Sampler.key) : list Sampler.key :=
+  match l with [] => [k] | h :: t => if Nat.leb k h then k :: l else h :: ins_key k t end.
+Definition sort_keys (l : list Sampler.key) : list Sampler.key := fold_right ins_key [] l.
+Fixpoint same_selections (a b : list (list Sampler.key)) : bool :=
+  match a, b with
+  | [], [] => true
+  | x :: r1, y :: r2 => keys_eqb (sort_keys x) (sort_keys y) && same_selections r1 r2
+  | _, _ => false
+  end.
+
+(* ---------------------------------------------------------------------------------------------------------- *)
 (* what the harness prints *)
 
 (* 1 configuration / header outside the fragment, 2 csv.Error, 3 no batch *)
@@ -127,4 +203,34 @@ Definition e2ecap_detail (c : config) (text : str) :=
                    map (fun r : Combos.row => (fst (fst r), snd (fst r), Z.of_N (snd r)))
                        (batch_triplets_sel c header D (batch_rows ps (fst be)) (snd be))))
        (combine bs (cap_sels c header ps)),
+   Stream.invalid_count (fun _ : list Stream.line => @nil unit) (fun _ : list unit => tt) (stream_cfg c header) (abs_lines ps)).
+
+(* the relational evaluation: [psels] = the pairs the implementation evaluated in every batch (names, with multiplicity).
+   (status, admissible?, per-batch verdicts, table for THESE selections, counts THESE selections imply,
+    same selections as the transcription Sampler.step?, (number of candidates, batch sizes), the selections as ids) *)
+Definition e2ecap_eval_rel (c : config) (text : str) (psels : list (list Combos.pair)) :=
+  let header := header_of text in let ps := parse_lines text in
+  let st := e2ecap_status c text in
+  let cands := cap_cands c header in
+  let isels := map (map (id_of_pair cands)) psels in
+  (st,
+   sels_ok c header ps isels,
+   sels_steps c header ps isels,
+   match e2ecap_core_sel c header ps isels with Some t => enc_table t | None => [] end,
+   (if (st =? 0)%N then cap_counts_sel c header isels else []),
+   same_selections isels (fst (cap_sampler c header (nbatches c header ps))),
+   (length cands, map (@length _) (e2e_batches c header ps)),
+   isels).
+
+(* for the failing case only: per batch the parsed rows and the triplets for the implementation's selections *)
+Definition e2ecap_detail_rel (c : config) (text : str) (psels : list (list Combos.pair)) :=
+  let header := header_of text in let ps := parse_lines text in
+  let bs := e2e_batches c header ps in let D := common_den bs in
+  let cands := cap_cands c header in
+  let sels := sel_pairs c header (map (map (id_of_pair cands)) psels) in
+  (header, Z.of_N D, cands,
+   map (fun be => (batch_rows ps (fst be),
+                   map (fun r : Combos.row => (fst (fst r), snd (fst r), Z.of_N (snd r)))
+                       (batch_triplets_sel c header D (batch_rows ps (fst be)) (snd be))))
+       (combine bs sels),
    Stream.invalid_count (fun _ : list Stream.line => @nil unit) (fun _ : list unit => tt) (stream_cfg c header) (abs_lines ps)).
